@@ -141,7 +141,7 @@ def defer_classifier(found, clock_field):
     'C08': 'deferring only when the remove clock is strictly ahead loses removes whose context is concurrent with the replica',
     'C04': 'a remove the replica has applied must still cover the adds it observed when they arrive later (all delivery schedules)',
     'C05': 'same for key removes of Map',
-    'C20': 'storing a remove the replica clock already covers leaves a stale pending remove (residue)',
+    'C20': 'storing a remove the replica clock already covers leaves a stale pending remove (residue); dropping part of a pending remove makes replicas with the same knowledge differ',
 }, floor=2)
 def def_decide(ctx):
     """A remove is written to the pending table exactly when partial_cmp(rm.clock, self.clock) is Greater or None."""
@@ -264,7 +264,7 @@ def def_decide(ctx):
                 aerrs.append('the new elements are not added to the pending set')
             ctx.check(not aerrs, name + '/accumulate', abody, 'pending elements under the same clock are accumulated, never replaced',
                       aerrs[0] if aerrs else '', details={'present -> (insert may, union must, any must)': {str(k): v for k, v in acc.items()}},
-                      props=['C08', 'C09', EL[inst]])
+                      props=['C08', 'C09', 'C20', EL[inst]])
 
 
 def _rm_elem_sites(facts, it, r, sub=()):
